@@ -1,8 +1,34 @@
 """Per-property configuration of ./check: Lean theorem modules and harness stages."""
 
 L4 = ["layer4/verif_common_test.go"]
+INTEG = ["integration/verif_common_test.go"]
 
 PROPS = {
+    "C01": dict(
+        lean_modules=["L4.Props.C01"],
+        stages=[
+            dict(name="conn", pkg="./layer4/", test="TestVerifConn", files=L4 + ["layer4/verif_conn_test.go"], nq=4000, nt=80000),
+            dict(name="chain", pkg="./integration/", test="TestVerifChain", files=INTEG + ["integration/verif_chain_test.go"],
+                 nq=600, nt=20000, lean=False),
+            # the routed traces of C02, judged here only by the stream predicate (bytes seen by successive handlers)
+            dict(name="route", pkg="./layer4/", test="TestVerifRoute", files=L4 + ["layer4/verif_route_test.go"],
+                 nq=3000, nt=40000, only_sigs=["stream"], ignore_diffs=True),
+        ],
+        level_text="Kernel-checked theorems on a layered connection model (layer4.Connection with buffer/cursor/matching mode over "
+                   "socket, bufio, batching and tee layers): every read pattern returns the stream in order, matchers are rewound, "
+                   "prefetch and the repaired Wrap keep the stream, and composed with the router transcription every handler and "
+                   "the fallback see the stream minus a consumed prefix. The model is tied to the real Connection by an "
+                   "op-sequence differential; real tee / proxy_protocol / throttle / subroute chains are judged by a byte-exact oracle.",
+        level_note="Trusted: Lean kernel; harness + driver; io/bufio semantics as modelled. Partial: real TLS termination is not in the "
+                   "chain stage (the TLS handler wraps with the same Wrap; crypto/tls is outside the model); slice aliasing of the "
+                   "pooled buffer is C08's subject.",
+        rule="conn: random disciplined op sequences (read / prefetch / freeze-reads-unfreeze / Wrap with passthrough, bufio, "
+             "batching, tee wrappers / drain) on the real layer4.Connection over scripted sockets with 0-8 chunks of 1-9000 bytes, "
+             "diffed against the Lean model; chain: random chains of the real throttle, tee, proxy_protocol, subroute handlers "
+             "and recorders behind a matcher forcing 0-8192 bytes of prefetch, payloads 0-40000 bytes in 4 segmentation modes; "
+             "route: C02's routed traces judged by the stream predicate; non-trivial = non-empty output; distinct = distinct outputs",
+        assumptions=["bufio.Reader / io.TeeReader / io.ReadFull behave as modelled (sampled by the differential)"],
+    ),
     "C02": dict(
         lean_modules=["L4.Props.C02"],
         stages=[
